@@ -245,11 +245,13 @@ def r05c(ctx):
             and isinstance(arg.args[0], ast.Call)
             and isinstance(arg.args[0].func, ast.Attribute)
             and arg.args[0].func.attr == "copy"
+            and not arg.args[0].args
+            and not any(k.arg == "deep" and not (isinstance(k.value, ast.Constant) and k.value.value is True) for k in arg.args[0].keywords)
         )
         if good:
             ctx.ok(cid, mod.loc(call), unparse(arg))
         else:
-            ctx.bad(cid, mod.loc(call), f"source frame is wrapped as `{unparse(arg) if arg is not None else None}` without .copy(): later in-place edits of the user's object change the collection (and vice versa)")
+            ctx.bad(cid, mod.loc(call), f"source frame is wrapped as `{unparse(arg) if arg is not None else None}` without a deep .copy(): later in-place edits of the user's object (or of the numpy buffer it wraps) change the collection, and vice versa")
     fp = model.cls("FromPandas")
     for c in model.subclasses(fp):
         m = c.members.get("_filtered_task")
@@ -366,3 +368,38 @@ def r05d(ctx):
     for i, r in enumerate(readers):
         good = any(unparse(e) == bkey for e in r.elts[1:])
         (ctx.ok if good else ctx.bad)(f"_shuffle.DiskShuffle._layer:reader#{i}", ds.module.loc(r), "reader waits for the barrier" if good else f"collect task `{unparse(r)}` does not depend on the barrier key {bkey}: it can read the partd store before all writers finished")
+
+
+@rule(
+    "R05f",
+    ["C05"],
+    """COLLECTIONS ARE NOT EDITED THROUGH AN ALIAS: in the methods of the collection classes (FrameBase, DataFrame, Series,
+    Index) a local that may still be `self` (assigned from `self` without .copy() / a selection / another derived
+    collection on some path) may not be item-assigned or have attributes set: `alias[col] = ...` goes through
+    __setitem__, which re-binds the USER's collection to the new expression.""",
+)
+def r05f(ctx):
+    model = ctx.model
+    n = 0
+    for cname in ("FrameBase", "DataFrame", "Series", "Index"):
+        c = model.cls(cname, "_collection")
+        for m in model.functions_of(c):
+            fn = m.node
+            if fn.name in ("__setitem__", "__setattr__", "__delitem__", "__init__") or not fn.args.args or fn.args.args[0].arg != "self":
+                continue
+            n += 1
+            aliases = [x for x in iter_body_nodes(fn) if isinstance(x, ast.Assign) and isinstance(x.value, ast.Name) and x.value.id == "self"]
+            if not aliases:
+                ctx.ok(qual(c, fn), c.module.loc(fn))
+                continue
+
+            def root(e):
+                return isinstance(e, ast.Name) and e.id == "self"
+
+            own = Ownership(fn, root, views_are_borrowed=False)
+            hits = [(node, target, what) for node, target, what in own.borrowed_mutations() if isinstance(target, ast.Name) and target.id != "self" and (isinstance(node, (ast.Assign, ast.AugAssign)) and any(isinstance(t, ast.Subscript) for t in (node.targets if isinstance(node, ast.Assign) else [node.target])))]
+            if not hits:
+                ctx.ok(qual(c, fn), c.module.loc(fn), "aliases of self are copied / re-derived before being edited")
+            for node, target, what in hits[:1]:
+                ctx.bad(f"{qual(c, fn)}:{target.id}", c.module.loc(node), f"{what}: `{target.id}` may still be `self` on this path (no .copy() / selection in between), so the method rewrites the caller's collection in place - its name, dtypes and later computes change although the method is documented to return a new object")
+    ctx.floor("collection methods", n, 200)
